@@ -20,7 +20,8 @@ func NewIndividualNameAndSex(individual *gedcom.IndividualNode) *IndividualNameA
 }
 
 func (c *IndividualNameAndSex) WriteHTMLTo(w io.Writer) (int64, error) {
-	primaryName := c.individual.Names()[0]
+	// Name is nil for an individual without a name, which is safe to use.
+	primaryName := c.individual.Name()
 	title := primaryName.Title()
 	prefix := primaryName.Prefix()
 	name := primaryName.GivenName()
